@@ -1,9 +1,14 @@
 (* GENERATED ONCE by tools/pin.py from Properties/C04.v and committed: the pinned statements. *)
 From VF.Properties Require C04.
-From VF Require Import Base Gen_Errors Fmt Lexer Grammar Lexer_proofs Grammar_proofs.
+From VF Require Import Base Gen_Errors Fmt Lexer Grammar Lexer_proofs Grammar_proofs Message_proofs2.
 Open Scope N_scope.
 
 Check (VF.Properties.C04.C04_lex_faithful : forall m, wf_msg m = true -> tokenize (render_msg m) = Val (map IOk (tokens_of m))).
+Check (VF.Properties.C04.C04_lex_faithful_trailing_separator : forall m w, wf_msg m = true -> wf_ws w = true ->
+  tokenize (m_lead m ++ render_units (m_units m) ++ 59 :: w ++ (if m_nl m then [10] else []))
+  = Val (map IOk (tokens_of m ++ [TUnitSeparator]))).
+Check (VF.Properties.C04.C04_lex_empty : forall w (nl : bool), wf_ws w = true ->
+  tokenize (w ++ (if nl then [10] else [])) = Val []).
 Check (VF.Properties.C04.C04_lex_total : forall input, exists ts, tokenize input = Val ts).
 Check (VF.Properties.C04.C04_lex_params_total : forall input, exists ts, tokenize_params input = Val ts).
 Check (VF.Properties.C04.C04_lex_progress : forall l t l', lex_next l = Val (STok t l') ->
